@@ -147,7 +147,7 @@ def run(ctx):
               'order relative to registration (earliest first / latest first / a middle one first / any permutation: predicate set under the user lock '
               '+ notify_all), optionally new waiters register while those deregister; the leavers overwrite their dead stack frames; then '
               'request_stop() from a task or an OS thread; monitor: every leaver returns true, every remaining waiter is still waiting before and '
-              'returns false within 6 s after request_stop (which returns true), user lock owned, no crash.  Non-trivial lock-step case = some thread blocked in '
+              'returns false within 10 s after request_stop (which returns true), user lock owned, no crash.  Non-trivial lock-step case = some thread blocked in '
               'suspend or in resume at some step; distinct = distinct IN lines')
     ctx.build_pika()
     drv = ctx.build_model('C07', 'ExtractC07.v', 'drv_c07.ml')
